@@ -415,11 +415,17 @@ class kFlowDecomp(pathmodel.AbstractPathModelDAG):
             # (all flow values are zero: nothing was peeled off, leave the instance to the MILP)
             return False
 
+        # The weights are the bottleneck values as they are stored in the graph: return them in the requested type
+        # (integer weights cannot express a non-integral bottleneck: leave such an instance to the MILP)
+        if self.weight_type == int and not all(float(w).is_integer() for w in weights):
+            return False
+        weights = [self.weight_type(w) for w in weights]
+
         if len(paths) <= self.k:
             # If paths contains strictly less than self.k paths, 
             # then we add arbitrary paths (i.e. we repeat the first path) with 0 weights to reach self.k paths.
             paths += [paths[0] for _ in range(self.k - len(paths))]
-            weights += [0 for _ in range(self.k - len(weights))]
+            weights += [self.weight_type(0) for _ in range(self.k - len(weights))]
             # self._solution = {
             #     "paths": paths,
             #     "weights": weights,
